@@ -152,6 +152,13 @@ func (s *Sim) Logf(label, format string, args ...any) {
 		s.stepLog = append(s.stepLog, line)
 	}
 	s.mu.Unlock()
+	if !s.plain {
+		// Wake the scheduler if it is waiting for activity.
+		select {
+		case s.wake <- struct{}{}:
+		default:
+		}
+	}
 }
 
 func (s *Sim) flushStepLog() {
@@ -232,7 +239,13 @@ func curGID() int64 {
 func (s *Sim) Go(label string, fn func()) {
 	s.actors.Add(1)
 	go func() {
-		defer s.actors.Add(-1)
+		defer func() {
+			s.actors.Add(-1)
+			select {
+			case s.wake <- struct{}{}:
+			default:
+			}
+		}()
 		id := curGID()
 		s.gids.Store(id, label)
 		defer s.gids.Delete(id)
@@ -329,6 +342,8 @@ func (s *Sim) Choose(n int) int {
 }
 
 func (s *Sim) draw() uint16 {
+	s.mu.Lock()
+	defer s.mu.Unlock()
 	var v uint16
 	if s.schedPos < len(s.Plan.Sched) {
 		v = s.Plan.Sched[s.schedPos]
@@ -493,6 +508,17 @@ func (s *Sim) Finish() {
 	s.flushStepLog()
 }
 
+// WaitActors lets simulated time pass (after Finish) until every actor
+// function has returned, so that no goroutine is left sleeping when the bubble
+// ends. It gives up after limit of simulated time.
+func (s *Sim) WaitActors(limit time.Duration) {
+	deadline := time.Now().Add(limit)
+	for s.ActorsRunning() > 0 && time.Now().Before(deadline) {
+		time.Sleep(time.Millisecond)
+		synctest.Wait()
+	}
+}
+
 // PassThrough reports whether gates are disabled.
 func (s *Sim) PassThrough() bool { return s.pass.Load() }
 
@@ -530,8 +556,8 @@ func Run(t *testing.T, plan *Plan, opt Options, body func(s *Sim)) *Result {
 				if s != nil && s.expectLeak && strings.Contains(msg, "deadlock: main bubble goroutine has exited") {
 					return
 				}
-				buf := make([]byte, 1<<16)
-				n := runtime.Stack(buf, false)
+				buf := make([]byte, 1<<20)
+				n := runtime.Stack(buf, strings.Contains(msg, "deadlock"))
 				res.Trouble = "panic: " + msg + "\n" + string(buf[:n])
 			}
 		}()
